@@ -470,6 +470,23 @@ def resolver_optional_argument_without_default(rng, ir, inj):
 
 
 @op
+def resolver_required_keyword_only_parameter(rng, ir, inj):
+    """A required keyword-only parameter that matches no argument can never be supplied, however many positional
+    parameters come before it (a starred one included)."""
+    f = _resolver_field(ir, inj, [SInput("given", named("Int"), 1)] if rng.random() < 0.5 else [])
+    ns = {}
+    exec(rng.choice([
+        "def r(root, ctx, info, *, surprise, **kw):\n    return 1\n",
+        "def r(root, *args, surprise, **kw):\n    return 1\n",
+        "def r(*args, surprise, **kw):\n    return 1\n",
+        "def r(root, ctx, info, *, surprise, given=1):\n    return 1\n",
+        "def r(root, ctx, *args, surprise, given=1):\n    return 1\n",
+    ]), ns)
+    inj.resolvers[(ir.query, f)] = ns["r"]
+    return f
+
+
+@op
 def resolver_extra_required_parameter(rng, ir, inj):
     f = _resolver_field(ir, inj, [])
     inj.resolvers[(ir.query, f)] = lambda root, ctx, info, surprise: 1
